@@ -17,6 +17,9 @@ fn main() {
         report::quiet_panics();
         let r = match id.as_str() {
             "C01" => c01::replay(&v["case"]),
+            "C02" => c02::replay(&v["case"]),
+            "C03" => c03::replay(&v["case"]),
+            "C04" => c04::replay(&v["case"]),
             _ => machinery_error(&format!("no replay for property {id}")),
         };
         match r {
@@ -38,6 +41,9 @@ fn main() {
     };
     match args[1].as_str() {
         "C01" => c01::run(tier),
+        "C02" => c02::run(tier),
+        "C03" => c03::run(tier),
+        "C04" => c04::run(tier),
         other => machinery_error(&format!("unknown property {other}")),
     }
 }
